@@ -241,7 +241,7 @@ pub fn capture(cmd: &mut Command, root: &Path, old_snapshot: &Path, log_path: &P
     st.arg("-f")
         .arg("-xx")
         .arg("-s")
-        .arg("16777216")
+        .arg("20000000")
         .arg("-e")
         .arg("trace=openat,open,creat,write,pwrite64,writev,pwritev,pwritev2,ftruncate,truncate,fsync,fdatasync,sync_file_range,sync,syncfs,rename,renameat,renameat2,unlink,unlinkat,mkdir,mkdirat,rmdir,link,linkat,symlink,symlinkat,close,dup,dup2,dup3,lseek,fallocate,mmap,sendfile,copy_file_range,fcntl")
         .arg("-o")
@@ -674,6 +674,16 @@ pub fn cut_points(n: usize, extra: &[usize]) -> Vec<usize> {
     let mut v: BTreeSet<usize> = BTreeSet::new();
     if n <= 4096 {
         v.extend(1..n);
+    } else if n > 256 * 1024 {
+        // very large writes (an image of the whole file is materialised and hashed per cut): eight
+        // interior cuts on page boundaries, the first sectors, and a few byte positions at both ends
+        let step = (n / 8).next_multiple_of(4096);
+        v.extend((step..n).step_by(step));
+        v.extend([1, 2, 7, 8, 15, 16, 17, 63, 512, 4096, 8192]);
+        v.extend([1, 2, 8, 16, 64, 512].iter().map(|d| n - d));
+        for e in extra {
+            v.extend([e.saturating_sub(1), *e, *e + 1]);
+        }
     } else {
         v.extend((512..n).step_by(512));
         v.extend(1..64.min(n));
